@@ -492,6 +492,15 @@ pub fn clear_protected() {
     unsafe { ST.protected.clear() }
 }
 
+/// End of a run: stop recording the harness's own allocations (what the driver accumulates
+/// between runs must not pile up in the table).
+pub fn end_run() {
+    unsafe {
+        ST.run_active = false;
+        ST.tracking = false;
+    }
+}
+
 /// Number of blocks recorded so far in this run (a position in the allocation log).
 pub fn mark() -> u32 {
     unsafe { ST.blocks.len as u32 }
